@@ -2,6 +2,7 @@ package props
 
 import (
 	"fmt"
+	"github.com/hack-pad/hackpadfs"
 	"os"
 	"strings"
 	"sync"
@@ -70,6 +71,9 @@ func c01build() {
 			// the epoch itself and a date before it are ordinary modification times (reproducible archives use 0)
 			add("Chtimes-epoch/"+sit, setup, fsx.Step{K: "Chtimes", P: t, MTime: 0}, fsx.Step{K: "Stat", P: t}, fsx.Step{K: "Chmod", P: t, Perm: 0o700})
 			add("Chtimes-before-epoch/"+sit, setup, fsx.Step{K: "Chtimes", P: t, MTime: -86400 * 365}, fsx.Step{K: "Stat", P: t})
+			// instants outside the range of int64 nanoseconds since 1970 (backup tools restore whatever the archive says)
+			add("Chtimes-year-2300/"+sit, setup, fsx.Step{K: "Chtimes", P: t, MTime: 10_413_792_000}, fsx.Step{K: "ReadDir", P: "."})
+			add("Chtimes-year-1600/"+sit, setup, fsx.Step{K: "Chtimes", P: t, MTime: -11_676_096_000}, fsx.Step{K: "ReadDir", P: "."})
 			add("Stat/"+sit, setup, fsx.Step{K: "Stat", P: t})
 			add("ReadDir/"+sit, setup, fsx.Step{K: "ReadDir", P: t})
 			add("ReadFile/"+sit, setup, fsx.Step{K: "ReadFile", P: t})
@@ -246,8 +250,14 @@ func c01run(env *core.Env, idx int) core.CaseResult {
 			}
 		}
 		rr := fsx.Exec(ref, st, &refHs, mt)
-		if st.K == "Chtimes" && rr.OK() {
+		farTime := st.K == "Chtimes" && (st.MTime > 9_000_000_000 || st.MTime < -9_000_000_000)
+		if st.K == "Chtimes" && rr.OK() && !farTime {
 			mt[st.P] = true
+		}
+		if farTime {
+			// (beyond the years 1678..2262 the os package itself garbles the time on its way to the kernel: the reference
+			// cannot say what should be there, the subject is asked for what it was given - see below)
+			delete(mt, st.P)
 		}
 		if rr.OK() && fsx.Mutates(st) {
 			okMut++
@@ -280,6 +290,12 @@ func c01run(env *core.Env, idx int) core.CaseResult {
 				sd.sub.Budget.Reset()
 			}
 			sr := fsx.Exec(sd.sub.FS, st, &sd.hs, mt)
+			if farTime && sr.OK() {
+				if info, err := hackpadfs.Stat(sd.sub.FS, st.P); err == nil && info.ModTime().Unix() != st.MTime {
+					res.Violate("C01|Chtimes|far-time|mtime-not-kept", fmt.Sprintf("[%s] %s succeeded, Stat then reports the modification time %d (%s): not the instant that was set", sd.sub.Name, st, info.ModTime().Unix(), info.ModTime().UTC().Format("2006-01-02")), map[string]any{"subject": sd.sub.Name, "history": fsx.HistoryString(hist)})
+				}
+				res.Count("far_times_read_back", 1)
+			}
 			res.Count("steps_compared", 1)
 			wit := map[string]any{"subject": sd.sub.Name, "history": fsx.HistoryString(hist), "step": i}
 			sigBase := "C01|" + st.K + "|" + sit + "|"
